@@ -163,7 +163,7 @@ def check_conformance(case, acc, sigp='c02'):
         acc.viol(sigp + '.unencodable_emitted', case, 'dumps returned %d bytes' % len(data), 'refusal (exception)',
                  'a text value holds characters the codec %s cannot carry' % enc)
         return
-    over = any(k == 'OVER' for _, k, _ in case['f'])
+    over = any(k in ('OVER', 'OVERICC') for _, k, _ in case['f'])
     if over:
         try:
             data = iso8583.dumps(copy.deepcopy(msg), **kw)
@@ -491,6 +491,9 @@ def singles_cases(cfgname, enc, hx, bit, seed, extras=False):
         if pl and cls in ('var', 'pan', 'panprefix'):
             for n in ((100, 101, 999) if pl == 2 else (1000, 1001)):
                 yield {'cfg': cfgname, 'enc': enc, 'hex': hx, 'seed': seed, 'f': [[bit, 'OVER', n]]}
+        if pl and cls == 'icc':
+            for n in ((100, 255) if pl == 2 else (1000, 1001, 1008, 2000)):
+                yield {'cfg': cfgname, 'enc': enc, 'hex': hx, 'seed': seed, 'f': [[bit, 'OVERICC', n]]}
         if pl and cls == 'var':
             for i in range(6):
                 yield {'cfg': cfgname, 'enc': enc, 'hex': hx, 'seed': seed, 'f': [[bit, 'UNENC', i]]}
